@@ -305,6 +305,24 @@ def harness_for(item):
             env.fail("verify:non-ascii-corruption", "a workspace differing in a non-ASCII character verified", key="digest:leaf-sensitivity")
         except pyhf.exceptions.PatchSetVerificationError:
             env.holds("verify:non-ascii-corruption", True, key="digest:leaf-sensitivity")
+        # verification has no memory: the SAME workspace object, corrupted in place after a successful verify / apply,
+        # is refused by verify and by apply; restored, it verifies again
+        live = copy.deepcopy(ws)
+        ps.verify(live)
+        old_val = live["observations"][0]["data"][1]
+        live["observations"][0]["data"][1] = old_val + 1
+        for nm, call in (("verify", lambda: ps.verify(live)), ("apply", lambda: ps.apply(live, "p0"))):
+            try:
+                call()
+                env.fail(f"{nm}:after-in-place-corruption", "a workspace object that verified earlier and was then corrupted in place is accepted", key="verify:stateless")
+            except pyhf.exceptions.PatchSetVerificationError:
+                env.holds(f"{nm}:after-in-place-corruption", True, key="verify:stateless")
+        live["observations"][0]["data"][1] = old_val
+        try:
+            ps.verify(live)
+            env.holds("verify:restored", True, key="verify:stateless")
+        except pyhf.exceptions.PatchSetVerificationError:
+            env.fail("verify:restored", "the restored workspace no longer verifies", key="verify:stateless")
 
     return {"accept": accept, "lookup": lookup, "values": values, "wrong-length": wrong_length, "verify": verify, "apply": apply,
             "digest-leaves": digest_leaves}[kind]
